@@ -1287,7 +1287,7 @@ struct WorldWorkload : Workload
       q.i = {ro.range(0, 1000), ro.range(0, 1000)};
       if (q.kind == "p.calc-injected")
       {
-        static const char* sites[] = {"calc.check", "calc.preprocess", "calc.run", "calc.postprocess", "calc.addvar", "krige.ready", "krige.estimate", "krige.status", "neigh.nomemo"};
+        static const char* sites[] = {"calc.check", "calc.preprocess", "calc.run", "calc.run", "calc.addvar", "krige.ready", "krige.estimate", "krige.status", "neigh.nomemo"};
         Fault f;
         f.site = sites[ro.below(9)];
         f.occ = (f.site == std::string("neigh.nomemo")) ? -1 : ro.below(3);
